@@ -45,7 +45,7 @@ INFO = {
             'bounded-exhaustive enumeration with fault injection at every throw index, 4 language standards'),
     'C16': ('exploration', 'Differential testing: seed-generated tapes replayed by interpreters built in 8 (quick) / 32 (thorough) build configurations; transcripts (incl. strong-guarantee calls under injected faults) must be byte-identical; absence of extras / SmallSet probed at compile time; a table of compile-time facts (sizeof, noexcept, traits) must be identical in every build.', '3/C16',
             'differential testing of generated scripts across build configurations'),
-    'C17': ('exploration', 'A generated matrix of element types and N; the compiler evaluates the static facts, an independent formula derived from the statement predicts them; 4 language standards.', '3/C17',
+    'C17': ('exploration', 'A generated matrix of element types and N; the compiler evaluates the static facts, an independent formula derived from the statement predicts them; 4 language standards with g++ 12 plus clang++ 14 as a second compiler.', '3/C17',
             'generated configuration matrix evaluated by the compiler against an independent oracle formula'),
     'C20': ('exploration', 'Generated multi-threaded reader programs (plus writer threads running the mutating interface on their own containers) under ThreadSanitizer with result comparison against single-threaded execution. Schedules are sampled, not owned by the harness.', '3/C20',
             'generated concurrent reader programs under ThreadSanitizer (sampled schedules)'),
